@@ -57,6 +57,12 @@ pub fn bodies(tier: &str) -> Vec<crate::e3::BodySpec> {
     use std::sync::Arc;
     let q = tier == "quick";
     vec![crate::e3::BodySpec {
+        // a bulk ingestion into y (flushes y and registers tables under the journal lock) against a removal in y, then the
+        // worker rotates the journal and evicts: the acknowledged removal must survive a crash
+        body: Arc::new(VisBody { name: "ingest y || remove y.a || worker: journal rotation + flush x + maintenance; crash image [jrot] [focus:write-path]", kind: Kind::Plain, workers: 1, keyspaces: vec!["x", "y"], initial: vec![("x", "a", "0"), ("y", "a", "0")], prerotate: vec!["x"], threads: vec![vec![Act::Ingest("y", vec![("b", "5")])], vec![Act::Ins(("y", "a", "-"))]], finals: Finals::CrashImage }),
+        bound: if q { 1 } else { 2 },
+        secs: if q { 4.0 } else { 200.0 },
+    }, crate::e3::BodySpec {
         // x has a sealed memtable and a queued flush; the worker's flush rotates the journal (position override) and runs
         // journal maintenance; meanwhile a writer inserts into y. A crash image taken after everything was acknowledged
         // must still hold y's write, whatever journal files were deleted.
